@@ -96,7 +96,12 @@ def run(ctx):
                     o = pr.operand(t["discr"])
                     from_ins = any(x == ("call", cs.bb) for x in o) or any(
                         x[0] == "call" and _is_some_of(ib, x[1], cs) for x in o)
+                    # "is a metrics recorder installed": the matched Option holds the recorder (recognised by type, whatever the field is
+                    # called and however the queue's inner state is reached)
                     from_rec = any(x[0] == "arg" and x[1] == 1 and "recorder" in x[2] for x in o)
+                    for s_ in ib.stmts(i):
+                        if s_["k"] == "assign" and s_["rv"]["k"] == "discr" and "MetricRecorder" in ib.local_ty(s_["rv"]["place"]["l"]):
+                            from_rec = True
                     if from_ins:
                         displaced_guard = True
                         # increment must be on the Some side
